@@ -69,7 +69,7 @@ def gen_cases(ctx):
             n_ops = int(rng.integers(3, 25))
             hist = [ops.gen_op(rng, keys, max_value=50 if cfg["kind"] in ("log16", "log8") else None) for _ in range(n_ops)]
             yield {"cfg": cfg, "history": hist, "offsets": "all", "overwrite": bool((i + rd) % 2), "sibling": bool((i + rd) % 3 == 0),
-                   "shm_backed": bool((i + 2 * rd) % 4 == 1)}
+                   "shm_backed": bool((i + 2 * rd) % 4 == 1), "after_same_shape": bool((i + rd) % 2 == 0 or rd == 0)}
     # size-gated code paths (preallocation, chunked writers) only show on large sketches: one file above 1 MiB per class family
     big = [{"kind": "hh", "width": 2048, "depth": 4, "max_key_len": 128}, {"kind": "linear", "width": 70000, "depth": 4},
            {"kind": "log8", "width": 300000, "depth": 4, "max_count": 2**32 - 1, "num_reserved": 15}, {"kind": "hll", "p": 16, "seed": 1}]
@@ -115,6 +115,17 @@ def run_case(case, ctx, mon):
             older.add(b"older-checkpoint", 3)
             mon.api(older.save, path)
             mon.count("files_saved_over_an_older_larger_file")
+        if case.get("after_same_shape") and kind in ("log16", "log8"):
+            # sketches of the wider classes with the same table shape were saved by this process just before (anything sized,
+            # reserved or remembered per shape by an earlier save must not leak into this file)
+            for k2 in ("linear", "log16"):
+                if k2 != kind and not (kind == "log16" and k2 == "log16"):
+                    o = state.make({"kind": k2, "width": cfg["width"], "depth": cfg["depth"]})
+                    o.add(b"earlier-save", 2)
+                    p2 = state.tmp_path(".npz")
+                    o.save(p2)
+                    os.unlink(p2)
+            mon.count("files_saved_after_same_shaped_sketches_of_wider_classes")
         mon.api(sketch.save, path)
         size = os.path.getsize(path)
         mon.seen("file_size", size)
@@ -199,6 +210,7 @@ def replay(case, ctx, mon):
 
 
 def floors(mon, ctx):
+    mon.floor("files saved right after same-shaped sketches of wider classes", mon.counters["files_saved_after_same_shaped_sketches_of_wider_classes"], 3)
     for k in state.ALL_KINDS:
         mon.floor(f"files of class {k}", mon.counters.get("files:" + k, 0), 1)
     mon.floor("prefix loads", mon.by_clause.get("prefix-must-raise", 0), 5000)
